@@ -9,6 +9,7 @@
   about exactly the integers the compiled checkers compute with.
 -/
 import GojaModel.C12.Lemmas
+import GojaModel.C12.Grammar
 
 namespace GojaModel.C12
 
@@ -534,15 +535,411 @@ theorem fixedFormat_read (N fd : Nat) :
     · simp only [List.length_drop]; omega
     · simp only [List.take_append_drop]; exact hPval
 
+/-- **The exponential layout is value-faithful** (toExponential, and the exponent branches of toString / toPrecision):
+`d[.ddd]e±x` read back gives the same digits (trailing zeros included) and the same point position. -/
+theorem expFormat_read (x : Nat) (xs : List Nat) (n : Int) (hx : x ≠ 0) (hd : ∀ d ∈ x :: xs, d < 10) :
+    readDigits (expFormat (x :: xs) n) = some (x :: xs, n) := by
+  unfold expFormat
+  cases xs with
+  | nil =>
+    show readDigits (digitsStr [x] ++ expSuffix (n - 1)) = _
+    have hsc := scanDec_nodot [x] (expSuffix (n - 1)) (n - 1) true hd (by simp)
+      (stops_expSuffix _) (scanFrac_expSuffix _) (scanExp_expSuffix _)
+    have := readDigits_of hsc rfl [x] (by simp only [List.append_nil]; exact dropZeros_cons _ hx) (by simp)
+    rw [this]
+    simp only [List.length_cons, List.length_nil]
+    congr 2
+    omega
+  | cons y ys =>
+    show readDigits (digitsStr [x] ++ '.' :: (digitsStr (y :: ys) ++ expSuffix (n - 1))) = _
+    have hsc := scanDec_dot [x] (y :: ys) (expSuffix (n - 1)) (n - 1) true
+      (fun d hm => hd d (by simp at hm; simp [hm]))
+      (fun d hm => hd d (List.mem_cons_of_mem _ hm)) (by simp) (stops_expSuffix _) (scanExp_expSuffix _)
+    have := readDigits_of hsc rfl (x :: y :: ys) (by exact dropZeros_cons _ hx) (by simp)
+    rw [this]
+    simp only [List.length_cons]
+    congr 2
+    omega
+
+/-- **The toPrecision layout is value-faithful** (steps 10.c–13): for `p` digits with a non-zero leading digit and
+any exponent `e` of the first digit, reading `precFormat ds e p` back gives the same `p` digits (trailing zeros
+included) and the point position `e + 1`.  All four layouts (exponential, digits only, digits with a point, 0.00ddd). -/
+theorem precFormat_read (x : Nat) (xs : List Nat) (e : Int) (hx : x ≠ 0) (hd : ∀ d ∈ x :: xs, d < 10) :
+    readDigits (precFormat (x :: xs) e (x :: xs).length) = some (x :: xs, e + 1) := by
+  unfold precFormat
+  split
+  · exact expFormat_read x xs (e + 1) hx hd
+  · rename_i h1
+    split
+    · rename_i h2
+      rw [read_plain x xs hx hd]
+      congr 2
+      omega
+    · rename_i h2
+      split
+      · rename_i h3
+        have := read_point x xs (e.toNat + 1) hx hd (by omega) (by
+          simp only [List.length_cons] at *; omega)
+        rw [this]
+        congr 2
+        omega
+      · rename_i h3
+        have := read_small x xs (-(e + 1)).toNat hx hd
+        rw [this]
+        congr 2
+        omega
+
+/-! ## input grammars (scanners of Model.lean against the declarative grammar of Grammar.lean) -/
+
+/-- **Digit scanning = longest prefix of radix-`r` digits** (used by parseInt, `0x`/`0o`/`0b` literals and every
+decimal component): the input splits into a run of valid digits, whose values are returned, and a rest at which the
+scan stops. -/
+theorem digits_longest_prefix (r : Nat) (cs : List Char) :
+    ∃ pre, cs = pre ++ (takeDigits r cs).2 ∧ (takeDigits r cs).1 = pre.map digitVal ∧
+      (∀ c ∈ pre, digitVal c < r) ∧ StopsR r (takeDigits r cs).2 := takeDigits_spec r cs
+
+/-- **Soundness of the decimal scanner**: the consumed prefix is a well-formed StrUnsignedDecimalLiteral (`DecText`,
+the ECMA-262 grammar written declaratively) whose components are exactly the returned ones. -/
+theorem decimal_scanner_sound (cs : List Char) (l : DecLit) (h : scanDec cs = some l) :
+    ∃ t : DecText, t.WF ∧ cs = t.text ++ l.rest ∧ l.Matches t := scanDec_sound cs l h
+
+/-- **Completeness and maximal munch of the decimal scanner**: on input that starts with any well-formed literal `t`
+the scanner succeeds and consumes at least `t`; on input that IS `t` it returns exactly `t`'s components. -/
+theorem decimal_scanner_longest (t : DecText) (ht : t.WF) (rest : List Char) :
+    ∃ l, scanDec (t.text ++ rest) = some l ∧ l.rest.length ≤ rest.length ∧
+      (rest = [] → l.Matches t ∧ l.rest = []) := scanDec_longest t ht rest
+
+/-- **Number(): a string in the grammar denotes its mathematical value.**  If the (trimmed, unsigned) body is a
+well-formed StrUnsignedDecimalLiteral `dt`, the parser returns the denotation of its digits `I ++ F` scaled by
+`10^(exponent − |F|)` (ECMA-262 StringNumericLiteral MV rules). -/
+theorem decimalBody_of_grammar (neg : Bool) (dt : DecText) (h : dt.WF) :
+    parseDecimalBody neg dt.text =
+      denote neg (dt.I.map digitVal ++ dt.F.map digitVal) (dt.expValue - (dt.F.length : Nat)) := by
+  obtain ⟨l, hs, _, hm⟩ := scanDec_longest dt h []
+  rw [List.append_nil] at hs
+  obtain ⟨⟨h1, h2, _, h4, _⟩, h6⟩ := hm rfl
+  unfold parseDecimalBody
+  simp only [decText_ne_infinity dt h, Bool.false_eq_true, if_false, hs, h6, List.isEmpty_nil, if_true,
+    DecLit.denote, h1, h2, h4, List.length_map]
+
+
+/-- **Number(): everything outside the grammar is NaN.** -/
+theorem decimalBody_nan (neg : Bool) (body : List Char) (hinf : (body == infinityChars) = false)
+    (h : ∀ dt : DecText, dt.WF → body ≠ dt.text) : parseDecimalBody neg body = .nan := by
+  unfold parseDecimalBody
+  simp only [hinf, Bool.false_eq_true, if_false]
+  cases hs : scanDec body with
+  | none => rfl
+  | some l =>
+    simp only []
+    cases hr : l.rest with
+    | nil =>
+      obtain ⟨t, hw, hb, _⟩ := scanDec_sound body l hs
+      rw [hr, List.append_nil] at hb
+      exact absurd hb (h t hw)
+    | cons c r => simp
+
+
+/-- **parseFloat uses the longest literal prefix.**  If the body starts with any well-formed literal, the parser's
+result is the denotation of a scanned literal `l` whose text `dt'` is itself a well-formed prefix of the body and is at
+least as long as the given one; if no prefix is a literal the result is NaN. -/
+theorem floatBody_longest (neg : Bool) (body : List Char) (hinf : infinityChars.isPrefixOf body = false) :
+    (∀ (dt : DecText) (rest : List Char), dt.WF → body = dt.text ++ rest →
+      ∃ l dt', scanDec body = some l ∧ parseFloatBody neg body = l.denote neg ∧ dt'.WF ∧
+        body = dt'.text ++ l.rest ∧ l.Matches dt' ∧ l.rest.length ≤ rest.length) ∧
+    ((∀ (dt : DecText) (rest : List Char), dt.WF → body ≠ dt.text ++ rest) → parseFloatBody neg body = .nan) := by
+  constructor
+  · intro dt rest hw hb
+    obtain ⟨l, hs, hlen, _⟩ := scanDec_longest dt hw rest
+    rw [← hb] at hs
+    obtain ⟨dt', hw', hb', hm'⟩ := scanDec_sound body l hs
+    refine ⟨l, dt', hs, ?_, hw', hb', hm', hlen⟩
+    unfold parseFloatBody
+    simp only [hinf, Bool.false_eq_true, if_false, hs]
+  · intro h
+    unfold parseFloatBody
+    simp only [hinf, Bool.false_eq_true, if_false]
+    cases hs : scanDec body with
+    | none => rfl
+    | some l =>
+      obtain ⟨t, hw, hb, _⟩ := scanDec_sound body l hs
+      exact absurd hb (h t l.rest hw)
+
+
+/-- **NonDecimalIntegerLiteral (`0x…`, `0o…`, `0b…`)**: one or more digits of the radix and nothing else denote the
+positional value; anything else is NaN. -/
+theorem nonDecimal_spec (radix : Nat) (r : List Char) :
+    ((r ≠ [] ∧ ∀ c ∈ r, digitVal c < radix) →
+      parseNonDecimal radix r = denoteInt false radix (r.map digitVal)) ∧
+    (¬ (r ≠ [] ∧ ∀ c ∈ r, digitVal c < radix) → parseNonDecimal radix r = .nan) := by
+  constructor
+  · rintro ⟨hne, hd⟩
+    have hT := takeDigits_append radix r [] hd
+    rw [List.append_nil] at hT
+    unfold parseNonDecimal
+    rw [hT]
+    cases hr : r with
+    | nil => exact absurd hr hne
+    | cons c cs => simp [takeDigits]
+  · intro hn
+    obtain ⟨pre, h1, h2, h3, h4⟩ := takeDigits_spec radix r
+    unfold parseNonDecimal
+    by_cases hrest : (takeDigits radix r).2 = []
+    · rw [hrest, List.append_nil] at h1
+      have hpre : pre = [] := by
+        apply Classical.byContradiction
+        intro hp
+        exact hn ⟨by rw [h1]; exact hp, by rw [h1]; exact h3⟩
+      rw [h2, hpre]; simp
+    · cases hh : (takeDigits radix r).2 with
+      | nil => exact absurd hh hrest
+      | cons a b => simp
+
+
+/-- **parseInt digits**: the result is determined by the longest prefix of radix-R digits (steps 11–16). -/
+theorem parseIntDigits_spec (neg : Bool) (R : Nat) (pre rest : List Char)
+    (hpre : ∀ c ∈ pre, digitVal c < R) (hstop : StopsR R rest) :
+    parseIntDigits neg R (pre ++ rest) =
+      if pre = [] then .nan else denoteInt neg R (pre.map digitVal) := by
+  unfold parseIntDigits
+  rw [takeDigits_append R pre rest hpre, takeDigits_stopR hstop]
+  cases pre with
+  | nil => simp
+  | cons c cs => simp
+
+
+/-- `trimL` removes exactly the maximal run of StrWhiteSpaceChar at the front. -/
+theorem trimL_spec (cs : List Char) :
+    ∃ ws, cs = ws ++ trimL cs ∧ (∀ c ∈ ws, isWhite c = true) ∧
+      (match trimL cs with | [] => True | c :: _ => isWhite c = false) := by
+  induction cs with
+  | nil => exact ⟨[], rfl, by simp, trivial⟩
+  | cons c cs ih =>
+    by_cases hc : isWhite c = true
+    · obtain ⟨ws, h1, h2, h3⟩ := ih
+      refine ⟨c :: ws, ?_, ?_, ?_⟩
+      · simp only [trimL, hc, if_true, List.cons_append]; rw [← h1]
+      · intro d hm
+        rcases List.mem_cons.mp hm with h | h
+        · subst h; exact hc
+        · exact h2 d h
+      · simpa only [trimL, hc, if_true] using h3
+    · have hc' : isWhite c = false := by
+        cases h : isWhite c with
+        | true => exact absurd h hc
+        | false => rfl
+      refine ⟨[], ?_, by simp, ?_⟩
+      · simp [trimL, hc']
+      · simp [trimL, hc']
+
+
+
+/-- **Value of `denote`, rational case**: the returned fraction `n/d` equals `natOfDigits ds × 10^e`
+(cross-multiplied with the canonical fraction `decNum/decDen` of that decimal), and the sign is kept. -/
+theorem denote_rat_value (neg : Bool) (ds : List Nat) (e : Int) (neg' : Bool) (n d : Nat)
+    (h : denote neg ds e = .rat neg' n d) :
+    neg' = neg ∧ 0 < d ∧ n * decDen e = decNum (natOfDigits 10 ds) e * d := by
+  unfold denote at h
+  simp only [] at h
+  split at h
+  · cases h
+  · split at h
+    · cases h
+    · split at h
+      · cases h
+      · simp only [Parsed.rat.injEq] at h
+        obtain ⟨h1, h2, h3⟩ := h
+        obtain ⟨z, hz⟩ := dropTrailingZeros_spec (dropZeros ds)
+        have hlen : (dropZeros ds).length - (dropTrailingZeros (dropZeros ds)).length = z := by
+          have := congrArg List.length hz
+          simp only [List.length_append, List.length_replicate] at this
+          omega
+        rw [hlen] at h2 h3
+        have hval : natOfDigits 10 ds = natOfDigits 10 (dropTrailingZeros (dropZeros ds)) * 10 ^ z := by
+          rw [← natOfDigits_dropZeros 10 ds]
+          conv => lhs; rw [hz]
+          rw [natOfDigits_append, natOfDigits_replicate_zero, List.length_replicate]; simp
+        refine ⟨h1.symm, by rw [← h3]; exact decDen_pos _, ?_⟩
+        rw [← h2, ← h3, hval]
+        have := dec_shift_value (natOfDigits 10 (dropTrailingZeros (dropZeros ds))) (e + (z : Int)) z
+        have ez : e + (z : Int) - (z : Int) = e := by omega
+        rw [ez] at this
+        exact this.symm
+
+
+/-- **Value of `denote`, zero case.** -/
+theorem denote_zero_value (neg : Bool) (ds : List Nat) (e : Int) (neg' : Bool)
+    (h : denote neg ds e = .zero neg') : neg' = neg ∧ natOfDigits 10 ds = 0 := by
+  unfold denote at h
+  simp only [] at h
+  split at h
+  · rename_i hem
+    simp only [Parsed.zero.injEq] at h
+    refine ⟨h.symm, ?_⟩
+    rw [← natOfDigits_dropZeros 10 ds]
+    cases hd : dropZeros ds with
+    | nil => rfl
+    | cons a b => rw [hd] at hem; simp at hem
+  · split at h
+    · cases h
+    · split at h <;> cases h
+
+
+
+/-- **`huge` is justified**: when `denote` answers `huge` (without expanding the power of ten), the denoted value
+`natOfDigits ds × 10^e` is at least 10^400 and therefore rounds to ±Infinity. -/
+theorem denote_huge_sound (neg : Bool) (ds : List Nat) (e : Int) (neg' : Bool)
+    (h : denote neg ds e = .huge neg') :
+    neg' = neg ∧ isNearestMag (decNum (natOfDigits 10 ds) e) (decDen e) infOrd = true := by
+  unfold denote at h
+  simp only [] at h
+  split at h
+  · cases h
+  · rename_i hne
+    split at h
+    · rename_i hp
+      simp only [Parsed.huge.injEq] at h
+      refine ⟨h.symm, huge_rounds_to_inf _ _ (decDen_pos _) ?_⟩
+      have hh := dropZeros_head ds
+      cases hs : dropZeros ds with
+      | nil => rw [hs] at hne; simp at hne
+      | cons x xs =>
+        rw [hs] at hh hp
+        simp only [List.length_cons] at hp
+        have hlow := natOfDigits_lower x xs hh
+        rw [← hs, natOfDigits_dropZeros] at hlow
+        unfold decNum decDen
+        calc 10 ^ 400 * 10 ^ (-e).toNat = 10 ^ (400 + (-e).toNat) := by rw [Nat.pow_add]
+          _ ≤ 10 ^ (xs.length + e.toNat) := Nat.pow_le_pow_right (by decide) (by omega)
+          _ = 10 ^ xs.length * 10 ^ e.toNat := by rw [Nat.pow_add]
+          _ ≤ natOfDigits 10 ds * 10 ^ e.toNat := Nat.mul_le_mul_right _ hlow
+    · split at h <;> cases h
+
+
+/-- **`tiny` is justified**: when `denote` answers `tiny`, the denoted value is below 10^-400 and rounds to ±0. -/
+theorem denote_tiny_sound (neg : Bool) (ds : List Nat) (e : Int) (neg' : Bool) (hlt : ∀ d ∈ ds, d < 10)
+    (h : denote neg ds e = .tiny neg') :
+    neg' = neg ∧ isNearestMag (decNum (natOfDigits 10 ds) e) (decDen e) 0 = true := by
+  unfold denote at h
+  simp only [] at h
+  split at h
+  · cases h
+  · split at h
+    · cases h
+    · split at h
+      · rename_i hp
+        simp only [Parsed.tiny.injEq] at h
+        refine ⟨h.symm, tiny_rounds_to_zero _ _ (decDen_pos _) ?_⟩
+        obtain ⟨z, hz⟩ := dropZeros_spec ds
+        have hsig : ∀ d ∈ dropZeros ds, d < 10 := by
+          intro d hm; apply hlt; rw [hz]; exact List.mem_append_right _ hm
+        have hup := natOfDigits_upper (dropZeros ds) hsig
+        rw [natOfDigits_dropZeros] at hup
+        unfold decNum decDen
+        have hpos : 0 < 10 ^ e.toNat * 10 ^ 400 := Nat.mul_pos (Nat.pow_pos (by decide)) (Nat.pow_pos (by decide))
+        calc natOfDigits 10 ds * 10 ^ e.toNat * 10 ^ 400
+            = natOfDigits 10 ds * (10 ^ e.toNat * 10 ^ 400) := Nat.mul_assoc _ _ _
+          _ < 10 ^ (dropZeros ds).length * (10 ^ e.toNat * 10 ^ 400) := Nat.mul_lt_mul_of_pos_right hup hpos
+          _ = 10 ^ ((dropZeros ds).length + e.toNat + 400) := by rw [Nat.pow_add, Nat.pow_add, Nat.mul_assoc]
+          _ ≤ 10 ^ (-e).toNat := Nat.pow_le_pow_right (by decide) (by omega)
+      · cases h
+
+
+
+/-- **`trim` is StrWhiteSpace stripping on both sides**: the input is `ws1 ++ trim cs ++ ws2` with `ws1`, `ws2` runs of
+StrWhiteSpaceChar, and what is left neither starts nor ends with a StrWhiteSpaceChar (so both runs are maximal). -/
+theorem trim_spec (cs : List Char) :
+    ∃ ws1 ws2, cs = ws1 ++ (trim cs ++ ws2) ∧ (∀ c ∈ ws1, isWhite c = true) ∧ (∀ c ∈ ws2, isWhite c = true) ∧
+      (match trim cs with | [] => True | c :: _ => isWhite c = false) ∧
+      (match (trim cs).reverse with | [] => True | c :: _ => isWhite c = false) := by
+  obtain ⟨ws1, h1, h2, h3⟩ := trimL_spec cs
+  obtain ⟨w, g1, g2, g3⟩ := trimL_spec (trimL cs).reverse
+  have hA : trimL cs = (trimL (trimL cs).reverse).reverse ++ w.reverse := by
+    have := congrArg List.reverse g1
+    simp only [List.reverse_reverse, List.reverse_append] at this
+    exact this
+  refine ⟨ws1, w.reverse, ?_, h2, ?_, ?_, ?_⟩
+  · unfold trim
+    rw [← hA]; exact h1
+  · intro c hm
+    exact g2 c (List.mem_reverse.mp hm)
+  · unfold trim
+    cases hB : (trimL (trimL cs).reverse).reverse with
+    | nil => trivial
+    | cons c r =>
+      rw [hB] at hA
+      rw [hA] at h3
+      exact h3
+  · unfold trim
+    rw [List.reverse_reverse]
+    exact g3
+
+
+/-- **Number() on a decimal literal**: if the trimmed string is an optional sign followed by a well-formed
+StrUnsignedDecimalLiteral, `parseNumber` returns the signed denotation of its digits and exponent. -/
+theorem parseNumber_of_literal (s : List Char) (neg : Bool) (sg : List Char) (dt : DecText) (hw : dt.WF)
+    (hsg : (sg = [] ∧ neg = false) ∨ (sg = ['+'] ∧ neg = false) ∨ (sg = ['-'] ∧ neg = true))
+    (ht : trim s = sg ++ dt.text) :
+    parseNumber s =
+      denote neg (dt.I.map digitVal ++ dt.F.map digitVal) (dt.expValue - (dt.F.length : Nat)) := by
+  obtain ⟨c, r, hc, hcd⟩ := decText_head dt hw []
+  rw [List.append_nil] at hc
+  have hne : (sg ++ dt.text).isEmpty = false := by rw [hc]; cases sg <;> simp
+  have hrp : radixPrefix (sg ++ dt.text) = none := by
+    rcases hsg with ⟨h, _⟩ | ⟨h, _⟩ | ⟨h, _⟩
+    · subst h
+      simp only [List.nil_append]
+      cases hr : r with
+      | nil => rw [hc, hr]; unfold radixPrefix; split <;> simp_all
+      | cons b r' =>
+        rw [hc, hr]
+        exact radixPrefix_none_of_second (decText_second dt hw c b r' (by rw [hc, hr]))
+    · subst h; rw [hc]; rfl
+    · subst h; rw [hc]; rfl
+  have hss : splitSign (sg ++ dt.text) = (neg, !sg.isEmpty, dt.text) := by
+    rcases hsg with ⟨h, hn⟩ | ⟨h, hn⟩ | ⟨h, hn⟩
+    · subst h; subst hn
+      simp only [List.nil_append]
+      rw [hc]
+      have h1 : c ≠ '-' := by
+        rcases hcd with h | h
+        · intro e; subst e; revert h; decide
+        · intro e; rw [h] at e; revert e; decide
+      have h2 : c ≠ '+' := by
+        rcases hcd with h | h
+        · intro e; subst e; revert h; decide
+        · intro e; rw [h] at e; revert e; decide
+      unfold splitSign
+      split
+      · rename_i heq; injection heq with h' _; exact absurd h' h1
+      · rename_i heq; injection heq with h' _; exact absurd h' h2
+      · rfl
+    · subst h; subst hn; rfl
+    · subst h; subst hn; rfl
+  unfold parseNumber
+  simp only [ht, hne, Bool.false_eq_true, if_false, hrp, hss]
+  exact decimalBody_of_grammar neg dt hw
+
+/-- **Number() on `0x…` / `0o…` / `0b…`**: prefix, then one or more digits of the radix, denotes the integer. -/
+theorem parseNumber_of_radix_literal (s : List Char) (x : Char) (R : Nat) (r : List Char)
+    (hx : radixPrefix ('0' :: x :: r) = some (R, r)) (hne : r ≠ []) (hd : ∀ c ∈ r, digitVal c < R)
+    (ht : trim s = '0' :: x :: r) :
+    parseNumber s = denoteInt false R (r.map digitVal) := by
+  unfold parseNumber
+  simp only [ht, List.isEmpty_cons, Bool.false_eq_true, if_false, hx]
+  exact (nonDecimal_spec R r).1 ⟨hne, hd⟩
+
 /-- The grid of doubles is strictly increasing in the ordered bit pattern (needed by all of the above). -/
 theorem value_strictMono {j k : Nat} (h : j < k) : magOrd j < magOrd k := magOrd_strictMono h
 
 /-- **Property-level claim (partial).**  Every conversion output that the driver's checkers accept is certified
 against the specification by the theorems above: nearest/ties-to-even for text → number, round-trip + minimal
 digit count for String(x), correct rounding with ties up for toFixed (and `exp_sound`, `closest_sound`, `radix_sound`, `roundOrd_*` alongside).
-`_partial` because (1) universality over all 2^64 inputs × digit counts × radices × strings is SAMPLED by the
-correspondence run, not proved — there is no model of goja's dtoa/Grisu digit generators; (2) of the text layer only the Number::toString and toFixed layouts are covered by theorems (`ecmaFormat_read`,
-`fixedFormat_read`); the input grammars and the toPrecision layout are executable specification. -/
+`_partial` for ONE reason only: universality over all 2^64 inputs × digit counts × radices × strings is SAMPLED by
+the correspondence run, not proved — there is no model of goja's dtoa/Grisu digit generators.  The text layer is
+covered by theorems in this file: output layouts (`ecmaFormat_read`, `expFormat_read`, `fixedFormat_read`,
+`precFormat_read`), input grammars (`decimal_scanner_sound`, `decimal_scanner_longest`, `parseNumber_of_literal`,
+`floatBody_longest`, `parseIntDigits_spec`, `trim_spec`, …), digit denotation (`denote_rat_value`, `denote_huge_sound`, …). -/
 theorem dtoa_certified_partial :
     (∀ n d k, isNearestMag n d k = true → ∀ j, j ≤ infOrd →
         absDiff (n * scale) (magOrd k * d) ≤ absDiff (n * scale) (magOrd j * d)) ∧
